@@ -101,14 +101,14 @@ def main():
             # the change no longer applies to HEAD (a later fix: commit touched the same lines): use the newest
             # hand-rebased copy kept next to it, if any (patch-rebased*.diff), and say so in the result
             import glob as _g
-            sh("git checkout -q -- . && git clean -fdq", cwd=wt)
+            sh("git reset -q --hard && git clean -fdq", cwd=wt)
             for alt in sorted(_g.glob(os.path.join(mdir, "patch-rebased*.diff")), key=os.path.getmtime, reverse=True):
                 rc2, out2 = sh("git apply --3way %s || git apply %s" % (alt, alt), cwd=wt)
                 if rc2 == 0:
                     rc, out, patch = 0, out2, alt
                     res["patch_used"] = os.path.basename(alt)
                     break
-                sh("git checkout -q -- . && git clean -fdq", cwd=wt)
+                sh("git reset -q --hard && git clean -fdq", cwd=wt)
         res["apply_rc"] = rc
         if rc != 0:
             res["apply_out"] = out[-2000:]
